@@ -42,6 +42,7 @@ func c19Repo() *sbx.Box {
 	b.WriteFile("a.txt", []byte("hello\n"))
 	b.WriteFile("dir/x y.txt", []byte("two\n"))
 	b.WriteFile("dir/sub/z", []byte("three\n"))
+	b.WriteFile("dir/empty", nil) // the zero-length blob: an object file whose content has no byte to compare
 	run("add", "a.txt", "dir")
 	run("commit", "-m", "first")
 	b.WriteFile("a.txt", []byte("changed\n"))
